@@ -487,8 +487,12 @@ class IntegerSequence(SequenceBase):
                 return self.p_start
             else:
                 return None
-        i = int(point - self.p_start) % int(self.i_step)
-        next_point = point + self.i_step - IntegerInterval.from_integer(i)
+        if self.p_start is not None and point < self.p_start:
+            # before the start of the sequence: the next point is the first
+            next_point = self.p_start
+        else:
+            i = int(point - self.p_start) % int(self.i_step)
+            next_point = point + self.i_step - IntegerInterval.from_integer(i)
         ret = self._get_point_in_bounds(next_point)
         if self.exclusions and ret and ret in self.exclusions:
             return self.get_next_point(ret)
